@@ -44,9 +44,9 @@ func (e *VerifC39Emitter) Close() { e.a.close() }
 // State reports the channel occupancy and capacity, the pending dropped
 // count, the closed flag and whether the writer goroutine has exited. stuck is
 // true (and the other values are zero) when the emitter's mutex could not be
-// taken within two seconds.
-func (e *VerifC39Emitter) State() (queued, capacity int, dropped int64, closed, done, stuck bool) {
-	deadline := time.Now().Add(2 * time.Second)
+// taken within wait.
+func (e *VerifC39Emitter) State(wait time.Duration) (queued, capacity int, dropped int64, closed, done, stuck bool) {
+	deadline := time.Now().Add(wait)
 	for !e.a.mu.TryLock() {
 		if time.Now().After(deadline) {
 			return 0, 0, 0, false, false, true
